@@ -3,13 +3,24 @@ use super::*;
 use crate::chess::verif_chess::mk;
 use crate::nd;
 
-const TWO53: u64 = 1 << 53;
+const CLOCK_MAX: u64 = u64::MAX;
 
-/// Duration -> whole milliseconds without 128-bit arithmetic (SAT-friendly); exact because the
-/// harness asserts the seconds part fits.
-fn millis(d: Duration) -> u64 {
-    assert!(d.as_secs() <= u64::MAX / 1000, "C13: budget is not a finite number of milliseconds");
-    d.as_secs() * 1000 + d.subsec_millis() as u64
+// ---- assumed contract of the dependency std::time::Duration (DESIGN.md A4) -----------------------
+// Under Kani the two Duration operations the slice uses are replaced by an order embedding of u64
+// milliseconds (the `secs` field carries the millisecond count): 64-bit division circuits make the
+// real code intractable for SAT (measured: no result in 5 min for `from_millis(x).saturating_sub(5ms)
+// <= from_millis(x)`).  The native replay runs the real std code.
+#[cfg(kani)]
+pub fn stub_from_millis(ms: u64) -> Duration { Duration::new(ms, 0) }
+#[cfg(kani)]
+pub fn stub_saturating_sub(a: Duration, b: Duration) -> Duration { Duration::new(a.as_secs().saturating_sub(b.as_secs()), 0) }
+
+/// whole milliseconds of a budget (under the embedding when stubbed)
+fn millis(d: Duration) -> u128 {
+    #[cfg(kani)]
+    { d.as_secs() as u128 }
+    #[cfg(not(kani))]
+    { d.as_millis() }
 }
 
 /// C13 (clock mode).  Contract of the budget slice `verif_budget` (uci.rs, verbatim region of
@@ -19,16 +30,18 @@ fn millis(d: Duration) -> u64 {
 /// Clocks are bounded by 2^53 ms here (every such u64 is exact in f64); the float term for
 /// larger clocks is the SMT lemma (tools/run_smt.py).
 #[cfg_attr(kani, kani::proof)]
+#[cfg_attr(kani, kani::stub(std::time::Duration::from_millis, stub_from_millis))]
+#[cfg_attr(kani, kani::stub(std::time::Duration::saturating_sub, stub_saturating_sub))]
 #[cfg_attr(verif_replay, test)]
 pub fn c13_budget_clock_mode() {
     let white = nd::bool();
     let g = mk::game_side_only(white);
     let (wt, bt, wi, bi) = (nd::u64(), nd::u64(), nd::u64(), nd::u64());
-    nd::assume(wt <= TWO53 && bt <= TWO53);
+    nd::assume(wt <= CLOCK_MAX && bt <= CLOCK_MAX);
     let r = verif_budget(&g, Some(wt), Some(bt), Some(wi), Some(bi), None);
     let own = if white { wt } else { bt };
     match r {
-        Some(d) => assert!(millis(d) <= own, "C13: budget exceeds the mover's remaining clock"),
+        Some(d) => assert!(millis(d) <= own as u128, "C13: budget exceeds the mover's remaining clock"),
         None => assert!(false, "C13: no budget computed in clock mode"),
     }
     vcover!(r.is_some_and(|d| d > Duration::ZERO), "budget can be positive");
@@ -37,6 +50,8 @@ pub fn c13_budget_clock_mode() {
 
 /// C13 (movetime mode): the budget is <= movetime, whatever the clocks say.
 #[cfg_attr(kani, kani::proof)]
+#[cfg_attr(kani, kani::stub(std::time::Duration::from_millis, stub_from_millis))]
+#[cfg_attr(kani, kani::stub(std::time::Duration::saturating_sub, stub_saturating_sub))]
 #[cfg_attr(verif_replay, test)]
 pub fn c13_budget_movetime_mode() {
     let white = nd::bool();
@@ -44,45 +59,26 @@ pub fn c13_budget_movetime_mode() {
     let mt = nd::u64();
     let r = verif_budget(&g, None, None, None, None, Some(mt));
     match r {
-        Some(d) => assert!(millis(d) <= mt, "C13: budget exceeds movetime"),
+        Some(d) => assert!(millis(d) <= mt as u128, "C13: budget exceeds movetime"),
         None => assert!(false, "C13: no budget computed in movetime mode"),
     }
-    vcover!(r.is_some_and(|d| d.as_secs() > 1), "budget can exceed 1 s");
+    vcover!(r.is_some_and(|d| millis(d) > 1000), "budget can exceed 1 s");
 }
 
 /// C13: movetime takes precedence over clocks, and is still bounded by movetime.
 #[cfg_attr(kani, kani::proof)]
+#[cfg_attr(kani, kani::stub(std::time::Duration::from_millis, stub_from_millis))]
+#[cfg_attr(kani, kani::stub(std::time::Duration::saturating_sub, stub_saturating_sub))]
 #[cfg_attr(verif_replay, test)]
 pub fn c13_budget_movetime_with_clocks() {
     let white = nd::bool();
     let g = mk::game_side_only(white);
     let (wt, bt, wi, bi, mt) = (nd::u64(), nd::u64(), nd::u64(), nd::u64(), nd::u64());
-    nd::assume(wt <= TWO53 && bt <= TWO53);
+    nd::assume(wt <= CLOCK_MAX && bt <= CLOCK_MAX);
     let r = verif_budget(&g, Some(wt), Some(bt), Some(wi), Some(bi), Some(mt));
     match r {
-        Some(d) => assert!(millis(d) <= mt, "C13: budget exceeds movetime (clocks also given)"),
+        Some(d) => assert!(millis(d) <= mt as u128, "C13: budget exceeds movetime (clocks also given)"),
         None => assert!(false, "C13: no budget computed"),
     }
     vcover!(true, "reachable");
-}
-
-#[cfg_attr(kani, kani::proof)]
-pub fn exp_d_movetime() {
-    let white = nd::bool();
-    let g = mk::game_side_only(white);
-    let mt = nd::u64();
-    let r = verif_budget(&g, None, None, None, None, Some(mt));
-    assert!(r.unwrap() <= Duration::from_millis(mt));
-}
-#[cfg_attr(kani, kani::proof)]
-pub fn exp_mono() {
-    let (x, y) = (nd::u64(), nd::u64());
-    nd::assume(x <= y);
-    assert!(Duration::from_millis(x) <= Duration::from_millis(y));
-}
-#[cfg_attr(kani, kani::proof)]
-pub fn exp_mono32() {
-    let (x, y) = (nd::u32() as u64, nd::u32() as u64);
-    nd::assume(x <= y);
-    assert!(Duration::from_millis(x) <= Duration::from_millis(y));
 }
